@@ -7,7 +7,7 @@
       composed with what the TRUE geometric mean satisfies (Proofs/GeoMeanBracket.v). *)
 From MM Require Import Base.Num Base.GASort Model.Stream Proofs.Stream Model.Sample Spec.Sample.
 From MM Require Import Proofs.Sample Proofs.CheckBase Check.C09 Proofs.CheckC09 Proofs.GeoMeanBracket.
-From MM Require Import Proofs.CheckC09Log Proofs.CheckC09Hist Proofs.CheckC09HistVal.
+From MM Require Import Proofs.CheckC09Log Proofs.CheckC09Hist Proofs.CheckC09HistVal Proofs.CheckC09HistAll.
 From Coq Require Import Lqa Lia.
 Local Open Scope Q_scope.
 
@@ -62,19 +62,21 @@ Proof. intros lo hi num base res H. split; [apply logspace_accept_sound; exact H
 Theorem history_line_all : forall sorted hasw xs ws ops c tag pos diag,
   check_case (KHist sorted hasw xs ws ops) = verdict c tag pos diag -> (c = 0 \/ c = 1)%Z ->
   let s0 := mkSample xs (ows hasw ws) sorted in
-  obs_hist_ok [s0] ops /\ (no_poke (map fst ops) -> obs_multiset_ok s0 ops /\ obs_fresh_ok s0 ops).
+  obs_hist_ok [s0] ops /\ obs_hist_fresh_ok [s0] ops /\
+  (no_poke (map fst ops) -> obs_multiset_ok s0 ops /\ obs_fresh_ok s0 ops).
 Proof.
   intros sorted hasw xs ws ops c tag pos diag V Hc s0.
   destruct (check_hist_obs sorted hasw xs ws ops c tag pos diag V Hc) as [A B].
-  split; [exact A|]. intro NP. split; [exact (B NP)|exact (check_hist_fresh sorted hasw xs ws ops c tag pos diag V Hc NP)].
+  split; [exact A|]. split; [exact (check_hist_fresh_all sorted hasw xs ws ops c tag pos diag V Hc)|]. intro NP. split; [exact (B NP)|exact (check_hist_fresh sorted hasw xs ws ops c tag pos diag V Hc NP)].
 Qed.
 
 Theorem history_steps_all :
   (forall ops st cur, Forall swf st -> Forall2 sample_eqv st cur -> hist_ok st ops -> obs_hist_ok cur ops) /\
   (forall ops s0 cur, no_poke (map fst ops) -> Forall (inv s0) cur -> obs_hist_ok cur ops -> obs_multiset_ok s0 ops) /\
   (forall s0 s mst m sm w b1 b2 vst v, swf s0 -> swf s -> inv s0 s ->
-     query_obs_ok s mst m sm w b1 b2 vst v -> query_fresh_ok s0 mst m sm w b1 b2 vst v).
-Proof. exact (conj hist_ok_obs (conj obs_hist_multiset query_obs_fresh)). Qed.
+     query_obs_ok s mst m sm w b1 b2 vst v -> query_fresh_ok s0 mst m sm w b1 b2 vst v) /\
+  (forall ops cur, obs_hist_ok cur ops -> obs_hist_fresh_ok cur ops).
+Proof. exact (conj hist_ok_obs (conj obs_hist_multiset (conj query_obs_fresh obs_hist_ok_fresh))). Qed.
 
 Print Assumptions stats_ignore_sorted_flag.
 Print Assumptions logspace_accept_all.
